@@ -222,14 +222,20 @@ def run(rep, tier, rng):
                     rep.violation("strict vocabulary changed by a failing parse", {"case": {"text": text}})
 
             # ---- populate: items left to right -------------------------------------
-            for _ in range(6 if quick else 40):
+            FORCED = [[("mul", ("name", 0), ("special", "Identity")), ("add", ("special", "Zero"), ("name", 1))],
+                      [("mul", ("special", "Identity"), ("name", 0)), ("sub", ("name", 0), ("mul", ("name", 1), ("special", "Identity")))],
+                      [("special", "Zero"), ("mul", ("num", 2, 1, False), ("special", "Identity"))]]
+            for run_i in range(len(FORCED) + (6 if quick else 40)):
+                forced = FORCED[run_i] if run_i < len(FORCED) else None
                 stream = [algs.rand_vec(rng, d, -2, 2) for _ in range(8)]
                 it = iter([algs.fl(v) for v in stream])
                 pv = spa.Vocabulary(d, algebra=A, pointer_gen=it, max_similarity=1e9)
                 names, items, model_entries, text_parts, drawn = [], [], [], [], 0
-                for k in range(rng.randint(2, 5)):
+                for k in range(rng.randint(2, 5) if forced is None else 1 + len(forced)):
                     nm = "P%d" % k
                     form = rng.choice(["bare", "bare", "assign", "method"]) if names else "bare"
+                    if forced is not None and k >= 1:
+                        form = "assign"
                     if form == "bare":
                         text_parts.append(rng.choice(["", " "]) + nm + rng.choice(["", " "]))
                         items.append((nm, "bare", stream[drawn])); drawn += 1
@@ -239,7 +245,7 @@ def run(rep, tier, rng):
                         items.append((nm, "method", stream[drawn], m)); drawn += 1
                     else:
                         gg = Gen(rng, al)
-                        e = gg.gen(2)
+                        e = gg.gen(2) if forced is None else forced[k - 1]
 
                         def remap(x):
                             if x[0] == "name":
@@ -250,11 +256,8 @@ def run(rep, tier, rng):
                         for i_, n_ in enumerate(NAMES):
                             pass
                         # print with the populate-local names
-                        txt2 = txt
-                        for i_ in range(3, -1, -1):
-                            txt2 = txt2.replace(NAMES[i_], "\0%d" % i_)
-                        for i_ in range(4):
-                            txt2 = txt2.replace("\0%d" % i_, names[i_ % len(names)])
+                        import re as _re
+                        txt2 = _re.sub(r"\b([ABCD])\b", lambda mm: names[NAMES.index(mm.group(1)) % len(names)], txt)
                         text_parts.append(f"{nm} {rng.choice(['=', ' = ', '='])} {txt2}")
                         items.append((nm, "assign", e, list(names)))
                     names.append(nm)
@@ -269,6 +272,17 @@ def run(rep, tier, rng):
                 for idx, itx in enumerate(items):
                     nm = itx[0]
                     if nm not in pv:
+                        # populate stopped at this item: the model must fail here with the same exception
+                        if itx[1] == "assign" and o[0] != "ok":
+                            ents_f = [sofar[names.index(n)] for n in itx[3]]
+                            while len(ents_f) < 4:
+                                ents_f.append(ents_f[-1])
+                            if not any(x is None for v in ents_f for x in v):
+                                add(f"check_parse {al} {c.nat(d)} {c.lst([c.zlist(v) for v in ents_f])} {to_coq(itx[2])} (1%Z, 1000000000%Z) {obs_t(o)}",
+                                    {"op": "populate-item-assign-raised", "alg": al, "d": d, "text": text, "item": idx, "entries": ents_f,
+                                     "obs": [o[0], str(o[1])[:120]]}, ("populate-raised", al, d, text, idx))
+                        elif o[0] != "ok" and itx[1] == "bare":
+                            rep.violation(f"populate({text!r}) raised {o[0]} at the bare name {nm!r}", {"case": {"alg": al, "text": text}})
                         break
                     stored = pv[nm].v
                     if itx[1] == "bare":
